@@ -1,4 +1,5 @@
 pub mod c05;
+pub mod c08;
 pub mod c09;
 pub mod c12;
 pub mod c13;
@@ -6,14 +7,15 @@ pub mod c13;
 use crate::core::{Prop, Tier};
 use crate::supervise::{Aggregate, SanitizerReport};
 
-/// sanitizer / interpreter lanes that are not native worker shards (filled in by sanitize.rs)
-pub fn extra_lanes<P: Prop>(_tier: Tier, _seed: u64, _agg: &mut Aggregate) -> Vec<SanitizerReport> {
-    vec![]
+/// sanitizer / interpreter lanes that are not native worker shards (see sanitize.rs)
+pub fn extra_lanes<P: Prop>(tier: Tier, seed: u64, agg: &mut Aggregate) -> Vec<SanitizerReport> {
+    crate::sanitize::run::<P>(tier, seed, agg)
 }
 
 /// helper child processes used by individual properties
 pub fn child_main(id: &str, args: &[String]) -> i32 {
     match id {
+        "C08" => c08::child(args.get(3).map(|s| s.as_str()).unwrap_or("")),
         "C09" => c09::child(args.get(3).map(|s| s.as_str()).unwrap_or("")),
         _ => 2,
     }
